@@ -1,23 +1,22 @@
 SPECIFICATION Spec
 CONSTANTS
   Names = {"a"}
-  Depth = 1
-  MaxArr = 1
-  MaxCustom = 1
-  EmitEvery = 1
-  MaxDev = 2
+  Depth = 2
+  MaxArr = 2
+  MaxCustom = 0
+  EmitEvery = 15
   PlanSet <- Plans
   PresChoices <- Pres
   Forged = {}
   WantOther = FALSE
-  AdvMoves = {}
+  AdvMoves = {"Narrow"}
   AdvKeys = {}
   KBResignKeys = {}
-  MaxAdv = 0
+  MaxAdv = 3
   MaxDiscs = 8
   VerifyArgs <- VArgs
   Ticks = {0}
-  NarrowSels <- NoNarrow
+  NarrowSels <- SubSels
   KeyFam <- Fam
-INVARIANTS Inv_C02 Inv_C03 Inv_C08 Inv_C08why Inv_C09 EmitScenario
+INVARIANTS Inv_C01 Inv_C03 Inv_C15 Inv_Clean EmitScenario
 CHECK_DEADLOCK FALSE
